@@ -1,5 +1,7 @@
 package consensus
 
+import cctx "github.com/xuperchain/xupercore/kernel/consensus/context"
+
 // XsimCurrent returns the plugin instance currently in charge (tail of the pluggable list).
 func XsimCurrent(ci ConsensusInterface) interface{} {
 	pc, ok := ci.(*PluggableConsensus)
@@ -7,4 +9,13 @@ func XsimCurrent(ci ConsensusInterface) interface{} {
 		return nil
 	}
 	return pc.stepConsensus.tail()
+}
+
+// XsimCtx returns the consensus context the pluggable consensus of a node was built with.
+func XsimCtx(ci ConsensusInterface) (cctx.ConsensusCtx, bool) {
+	pc, ok := ci.(*PluggableConsensus)
+	if !ok || pc == nil {
+		return cctx.ConsensusCtx{}, false
+	}
+	return pc.ctx, true
 }
